@@ -458,6 +458,18 @@ theorem gateway_scope_complete (g : Bool) (m : Mesh) (svcs : List Svc) (cfgNs : 
   obtain ⟨w, hw, hwh⟩ := (hostname_foldl_appendSvc _ []).2 _ hm
   exact ⟨w, hw, hwh.trans (core_hostname (trim_core _ _ _ _ _).1)⟩
 
+/-- The gateway cluster filter only removes services: what a Router gets with
+    PILOT_FILTER_GATEWAY_CLUSTER_CONFIG is part of its default scope (so `gateway_scope_sound` holds for it),
+    whatever VirtualServices (exported to the Router or not) name the destinations. -/
+theorem gateway_filtered_sound (g nsScoped : Bool) (m : Mesh) (svcs : List Svc) (vss : List VS)
+    (gateways : List String) (cfgNs : String) :
+    ∀ s ∈ gatewayFilteredServices nsScoped vss gateways (gatewayScopeServices g m svcs cfgNs),
+      (∃ o ∈ svcs, s.core = o.core ∧ isServiceVisible m o cfgNs = true) ∧
+      (g = true → ∀ a ∈ s.aliases, AliasVisible m svcs cfgNs a) := by
+  intro s hs
+  unfold gatewayFilteredServices at hs
+  exact gateway_scope_sound g m svcs cfgNs s (List.mem_filter.mp hs).1
+
 /-- the scope never holds two services with the same hostname -/
 theorem appendSvc_nodup_hostnames (acc : List Svc) (s : Svc)
     (h : (acc.map (·.hostname)).Nodup) : ((appendSvc acc s).map (·.hostname)).Nodup := by
